@@ -37,6 +37,34 @@ CHECKS['C11'] = {
     'technique': 'formula extraction + truth table, dominance/must-hold of scope guards over clang CFG, who-may-write rule',
 }
 
+CHECKS['C03'] = {
+    'text': 'Necessary lock discipline of the listener containers on every path of every instantiation: guarded-by for list links, '
+            'listener map and heterogeneous list table (locks held at entry of private helpers computed over the call graph), one critical '
+            'section per mutating list operation with the handle resolved inside it, acyclic acquired-while-holding graph over all library '
+            'mutexes, no stored callable invoked under any library mutex, no invalidating map operation, SpinLock memory orders, atomic RMW '
+            'for the generation counter. Each clause is a necessary condition: breaking it yields a racing or deadlocking schedule.',
+    'note': COMMON_NOTE + 'Not decided: linearizability and real-time order, progress, the tolerated unlocked read in empty(), weak-memory behaviour beyond the SpinLock orders.',
+    'technique': 'interprocedural lockset (must/may) over clang CFG + call graph, guarded-by tables, lock-order graph cycle check',
+}
+CHECKS['C04'] = {
+    'text': 'Dispatch funnel of the homogeneous dispatcher: (a) no argument or key is read after, or unsequenced with, being moved from, in '
+            'dispatch (both forms), directDispatch, both CallbackList::operator() variants and the queue dispatch helper, for by-value class-type '
+            'keys/arguments and const-ref/by-value getEvent policies; (b) listener lists are invoked only by directDispatch, on the list returned by '
+            'the lookup of its own event parameter, with its own arguments in order; dispatch passes getEvent(own arguments) and the own arguments; '
+            'the lookup searches the given key under listenerMutex; append/prepend/insert/removeListener perform exactly the matching list operation; '
+            '(c) static_assert and compile-fail witnesses for SelectGetEvent/SelectMap/argument-passing modes under g++ and clang++.',
+    'note': COMMON_NOTE + 'Not decided: equality/hash semantics of user key types, argument values.',
+    'technique': 'use-after-move analysis incl. unsequenced operands (AST LCA + CFG reachability), def-use funnel rules, compile-time witnesses',
+}
+CHECKS['C20'] = {
+    'text': 'The two clauses the statement names, over the whole library: no function instantiation reads and moves-from one object in unsequenced '
+            'operands (both operator() variants, all policy instantiations); no user-provided or implicit copy/move constructor leaves a scalar member '
+            'indeterminate (recursing into std::atomic etc., per -std level); plus the g++/clang++ compile matrix of the witness units and the '
+            'SingleThreading::Atomic/Mutex interface conventions (prefix ops return the new value, exchange the old).',
+    'note': COMMON_NOTE + 'Not decided: code generation, optimisation levels, other compilers, trace equality itself. Defaulted default constructors are not judged (their effect depends on the use site).',
+    'technique': 'unsequenced read/consume detection over AST, recursive default-initialisation analysis in the extractor, compile matrix, body pattern rules',
+}
+
 NOT_APPLICABLE = {
 }
 for _i in range(1, 21):
